@@ -698,6 +698,68 @@ pub(crate) const SECONDS_PER_WEEK: i64 = SECONDS_PER_DAY * DAYS_PER_WEEK;
 /// Number of seconds in 28 days
 const SECONDS_PER_28_DAYS: i64 = SECONDS_PER_DAY * 28;
 
+/// Read-only accessors for external verification harnesses (feature `__verif`, off by default).
+#[cfg(feature = "__verif")]
+#[doc(hidden)]
+#[allow(unreachable_pub, missing_docs)]
+pub mod verif {
+    use super::{LocalTimeType, TimeZone, TransitionRule};
+    use crate::offset::local::tz_info::rule::AlternateTime;
+    use crate::{MappedLocalTime, NaiveDateTime};
+
+    /// A zone built from TZif bytes or a POSIX TZ string, with the parser's verdict visible.
+    #[derive(Debug, Clone)]
+    pub struct Zone(TimeZone);
+
+    /// (UTC offset in seconds, DST flag, abbreviation)
+    pub type Ltt = (i32, bool, String);
+
+    fn ltt(l: &LocalTimeType) -> Ltt {
+        (l.offset(), l.is_dst(), l.name.as_ref().map(|n| n.as_ref().to_string()).unwrap_or_default())
+    }
+
+    impl Zone {
+        /// Parse the contents of a TZif file.
+        pub fn from_tzif(bytes: &[u8]) -> Result<Zone, String> {
+            TimeZone::from_tz_data(bytes).map(Zone).map_err(|e| format!("{:?}", e))
+        }
+
+        /// Parse a POSIX TZ rule string (same steps as `TZ=<rule>`; `extended` as in a v3 footer).
+        pub fn from_tz_string(tz: &[u8], extended: bool) -> Result<Zone, String> {
+            let rule = TransitionRule::from_tz_string(tz, extended).map_err(|e| format!("{:?}", e))?;
+            TimeZone::new(
+                vec![],
+                match rule {
+                    TransitionRule::Fixed(local_time_type) => vec![local_time_type],
+                    TransitionRule::Alternate(AlternateTime { std, dst, .. }) => vec![std, dst],
+                },
+                vec![],
+                Some(rule),
+            )
+            .map(Zone)
+            .map_err(|e| format!("{:?}", e))
+        }
+
+        /// `Debug` rendering of transitions, types, leap seconds and rule.
+        pub fn dump(&self) -> String {
+            format!("{:?}", self.0)
+        }
+
+        /// Local time type in force at a Unix time.
+        pub fn at(&self, unix_time: i64) -> Result<Ltt, String> {
+            self.0.find_local_time_type(unix_time).map(ltt).map_err(|e| format!("{:?}", e))
+        }
+
+        /// Local time types a wall-clock reading maps to.
+        pub fn at_local(&self, local: NaiveDateTime) -> Result<MappedLocalTime<Ltt>, String> {
+            self.0
+                .find_local_time_type_from_local(local)
+                .map(|m| m.map(|l| ltt(&l)))
+                .map_err(|e| format!("{:?}", e))
+        }
+    }
+}
+
 #[cfg(test)]
 mod tests {
     use super::super::Error;
